@@ -16,7 +16,7 @@ INVALID = ["i1", "i2"]
 UNPARSEABLE = ["x1", "x2"]
 SOAK = ["g%d" % i for i in range(1, 151)]
 MALFORMED = ["null", "string", "list", "nohash", "noversion", "strversion", "inthash", "floatversion", "bigversion"]
-NEG = ["NoHashCheck", "KeyBySupplied", "NoVersionCheck", "StoreUnchecked"]
+NEG = ["NoHashCheck", "KeyBySupplied", "NoVersionCheck", "StoreUnchecked", "VersionOnRegisterOnly"]
 
 
 def tla_set(xs):
@@ -57,8 +57,11 @@ def random_history(rng, n):
         elif k == "mismatch":
             t = rng.choice(focus)
             ev.append(rq("ok", t, rng.choice([h for h in hashes if h != t]), 1))
-        elif k == "version":
-            ev.append(rq("ok", rng.choice(focus + [""]), rng.choice(hashes), rng.choice([0, 2, -1, 2147483647])))
+        elif k == "version":   # half of them hash-only, mostly for hashes that were registered earlier in this history
+            registered = [e["q"] for e in ev if e["ext"] == "ok" and e["v"] == 1 and e["q"] and e["h"] == e["q"]]
+            q = "" if rng.random() < 0.5 else rng.choice(focus)
+            h = rng.choice(registered) if registered and rng.random() < 0.6 else rng.choice(hashes)
+            ev.append(rq("ok", q, h, rng.choice([0, 2, -1, 2147483647])))
         elif k == "malformed":
             ev.append(rq("malformed", rng.choice(focus + [""]), rng.choice(hashes + [""]), 0, rng.choice(MALFORMED)))
         elif k == "plain":
@@ -107,7 +110,7 @@ def body(c):
     # ---- mode M (+ negative controls) and the first generator run, concurrently ------------------
     from concurrent.futures import ThreadPoolExecutor
     md = lambda name: os.path.join(vlib.ROOT, "work", "tlc", "C31-%s-%d" % (name, os.getpid()))
-    with ThreadPoolExecutor(6) as ex:
+    with ThreadPoolExecutor(7) as ex:
         fm = ex.submit(vlib.run_tlc, "conc/PersistedQueries.tla", "conc/MC_PersistedQueries.cfg", workers=4, timeout=900,
                        metadir=md("M"))
         fneg = {d: ex.submit(vlib.run_tlc, "conc/PersistedQueries.tla", "conc/MC_PersistedQueries_neg_%s.cfg" % d, workers=1,
@@ -206,8 +209,13 @@ def body(c):
         stats[k] = stats.get(k, 0) + 1
     for row, tr in zip(rows, traces):
         classes = [classify(e) for e in tr["events"]]
+        seen_reg = set()
         for e, k in zip(tr["events"], classes):
             bump(k)
+            if k == "version" and e["q"] == "":
+                bump("version hash-only " + ("registered" if e["h"] in seen_reg else "unregistered"))
+            if k == "register" and e["exec"]:
+                seen_reg.add(e["q"])
             if k == "lookup" and row["src"] != "soak":   # soak: real LRU eviction depends on scc's random hasher; not counted
                 bump(("hit " if e["exec"] else "miss ") + ("lru" if tr["storage"] != "obs" else "obs"))
         nontrivial = any(k in ("lookup", "mismatch", "version", "malformed") for k in classes)
@@ -218,7 +226,8 @@ def body(c):
             c.drift("trace %s (%s, %s): registry model differs from the recorded observation at event %s"
                     % (tr["id"], row["src"], tr["storage"], drift))
     if not c.replay:
-        for k in ("plain", "register", "lookup", "mismatch", "version", "malformed", "evict", "hit obs", "miss obs", "hit lru", "miss lru"):
+        for k in ("plain", "register", "lookup", "mismatch", "version", "malformed", "evict", "hit obs", "miss obs", "hit lru", "miss lru",
+                  "version hash-only registered", "version hash-only unregistered"):
             if not stats.get(k):
                 raise vlib.ToolError("vacuity: no '%s' in the executed histories" % k)
     c.notes.append("events executed by class: " + json.dumps({k: stats[k] for k in sorted(stats)}))
@@ -240,7 +249,8 @@ def body(c):
                       "and maps hash strings and stored documents back to text names (trusted)",
                       "which document ran is observed through the `id` argument of the marker field; a stored document is identified "
                       "by the same argument",
-                      "reading: a request with a malformed persistedQuery payload supplies no hash, so nothing may run; a request "
+                      "reading: a request with a malformed persistedQuery payload or an unsupported version runs nothing and stores "
+                      "nothing, with a text or hash-only, for registered and unregistered hashes; a request "
                       "without the extension runs its own text and is outside the property",
                       "the error message PersistedQueryNotFound is compared because the property names it",
                       "garbage hashes are strings that are not the digest of any text in the universe"]
